@@ -446,6 +446,18 @@ theorem ragged_index_inverse (sizes : Array Nat) (index : Nat)
 example : raggedOffsets #[2, 3, 1] = #[0, 2, 5, 6] ∧ raggedIndex #[0, 2, 5, 6] 1 2 = 4
     ∧ raggedInverse #[0, 2, 5, 6] 4 = (1, 2) := by decide +kernel
 
+/-- `TwodGridData::at(ix, iy)` (row-major `ix * ny + iy`) is a bijection of the index box onto
+    `[0, nx·ny)` with inverse `(idx / ny, idx % ny)` -/
+theorem twodIndex_spec (nx ny ix iy : Nat) (hx : ix < nx) (hy : iy < ny) :
+    twodIndex ny ix iy < nx * ny ∧ twodIndex ny ix iy / ny = ix ∧ twodIndex ny ix iy % ny = iy := by
+  unfold twodIndex
+  refine ⟨?_, ?_, ?_⟩
+  · have : (ix + 1) * ny ≤ nx * ny := Nat.mul_le_mul_right ny hx
+    rw [Nat.add_mul, Nat.one_mul] at this
+    omega
+  · rw [Nat.mul_comm, Nat.mul_add_div (by omega), Nat.div_eq_of_lt hy, Nat.add_zero]
+  · rw [Nat.mul_comm, Nat.mul_add_mod, Nat.mod_eq_of_lt hy]
+
 /-! ## NonuniformGrid::find (index logic) -/
 
 /-- ★ `NonuniformGrid::find` brackets the value: for a sorted grid (duplicates allowed) over a
